@@ -1,15 +1,5 @@
-#![allow(dead_code)]
-mod auth;
-mod engine;
-mod itsw;
-mod oracle;
-mod probes;
-mod props;
-mod sweep;
-mod sys;
-mod world;
-
-use engine::Tier;
+use vcheck_lib::engine::Tier;
+use vcheck_lib::{engine, oracle, props, sweep};
 use std::path::PathBuf;
 
 fn usage() -> ! {
@@ -34,6 +24,17 @@ fn main() {
     if args[0] == "--inventory" {
         for e in sweep::scan_repo() {
             println!("{}::{} {:?}{}{}", e.contract, e.name, e.types, if e.unlisted { " UNLISTED" } else { "" }, if e.types.iter().all(|t| sweep::probeable(t)) { "" } else { " (not swept: argument type without a generator)" });
+        }
+        return;
+    }
+    if args[0] == "--emit-fuzz-seeds" {
+        // vcheck --emit-fuzz-seeds <ID> <dir> [n]
+        let id = args.get(1).map(|s| s.to_uppercase()).unwrap_or_default();
+        let dir = PathBuf::from(args.get(2).map(|s| s.as_str()).unwrap_or("seeds"));
+        let n: usize = args.get(3).and_then(|s| s.parse().ok()).unwrap_or(64);
+        std::fs::create_dir_all(&dir).unwrap();
+        for (i, b) in props::fuzz_seeds(&id, n, engine::seed_from_env()).into_iter().enumerate() {
+            std::fs::write(dir.join(format!("seed-{:03}", i)), b).unwrap();
         }
         return;
     }
